@@ -656,6 +656,8 @@ def build_expr(ctx, term, syms, tname):
             v = FATERMS_NUMS.get(term[1], NUM_VALUES.get(term[1]))
             return ctx.constant(v, syms["x"])
         return ctx.constant(NUM_VALUES[term[1]], build_expr(ctx, term[2], syms, tname))
+    if k == "numv":      # an arbitrary Python float given by its hex form, like term[2]
+        return ctx.constant(float.fromhex(term[1]), build_expr(ctx, term[2], syms, tname))
     if k == "named":
         like = build_expr(ctx, term[2], syms, tname) if len(term) == 3 else syms["x"]
         return ctx.constant(term[1], like)
@@ -1080,6 +1082,29 @@ def generated_requests(chk, tier, seed):
     if not quick:
         ops2 = gen_terms("TypedTerms", "TypedTerms.cfg", "ops2", chk)
         add("TypedTerms.ops2", ops2, variants=(0,), frac=0.07)
+    # two CONFUSABLE constants in one graph, each used in two distinct expressions (so each gets a variable):
+    # the TLC-enumerated ValuePairs shapes of C07 (neighbours, equal leading digits, equal integer part, shifted
+    # exponent, permuted / regrouped bytes), concretised as Python floats
+    from . import c07
+    rp = tlc.run("ValuePairs", "ValuePairs.cfg", workers=1)
+    if not rp.ok:
+        raise tlc.MachineryError("ValuePairs export failed:\n" + rp.out[-1500:])
+    chk.add_mc("ValuePairs.cfg", rp)
+    X, Y, B = ["sym", "x", "F"], ["sym", "y", "F"], ["sym", "b", "B"]
+    terms = []
+    for fam, ty in sorted((h[1], h[2]) for h in tlaval.fast_tuples(rp.out, "H")):
+        if ty != "float":
+            continue
+        for a, b in c07.make_pairs(fam, ty, 2 if quick else 8, rng):
+            if not (isinstance(a, float) and isinstance(b, float)) or a != a or b != b or abs(a) == float("inf") or abs(b) == float("inf"):
+                continue
+            if a == b:
+                continue      # 0.0 / -0.0: the shared name constant_f0 is a known finding with its own programs (PrinterTerms.consts)
+            c1, c2 = ["numv", float(a).hex(), X], ["numv", float(b).hex(), X]
+            terms.append(["add", ["select", B, ["multiply", X, c1], ["multiply", Y, c1]],
+                          ["select", B, ["multiply", X, c2], ["multiply", Y, c2]]])
+    add("ValuePairs.constpairs", terms, variants=(0, 1))
+    chk.cov["confusable_constant_pair_graphs"] = len(terms)
     return reqs
 
 
